@@ -73,9 +73,17 @@ Theorem C04_append_after_boundary : forall rs n after stale,
 Proof. exact append_after_boundary. Qed.
 Print Assumptions C04_append_after_boundary.
 
-(* ... but after a torn tail record they do not, even with the repaired reader: nothing trims the
-   torn bytes when the log is re-opened for appending.  Recorded as a known finding (the repair is a
-   log-repair pass on open, not a small change). *)
+(* With the engine trimming the torn tail before its first append (repo_patches/C04-4-fix.diff):
+   for EVERY cut, records appended by the next process read back, in order, behind the completely
+   written ones. *)
+Theorem C04_append_after_crash : forall rs n after stale,
+  Forall record_ok rs -> Forall record_ok after -> (n <= length (encode rs))%nat ->
+  read_all_fixed (trimmed_then_appended rs n after stale) = LOk (complete_prefix rs n ++ after).
+Proof. exact append_after_crash_fixed. Qed.
+Print Assumptions C04_append_after_crash.
+
+(* Without the trim (the code as it stood) a torn tail swallowed or mis-framed the later records,
+   even with the repaired reader. *)
 Theorem C04_append_after_torn_refuted :
   exists rs n after st, Forall record_ok rs /\ Forall record_ok after /\ (n <= length (encode rs))%nat /\
     read_all_fixed (torn_then_appended rs n after st) <> LOk (complete_prefix rs n ++ after).
@@ -122,10 +130,22 @@ Theorem C04_init_crash : forall C k, exists m wr,
 Proof. exact init_crash. Qed.
 Print Assumptions C04_init_crash.
 
-(* Once the data store is part of the picture, deleting a data instance is NOT atomic: the deleted
-   flag lives in memory only, so a crash after the key-values went and before the repo was saved
-   shows the instance with none (or part) of its data — neither before nor after.  Known finding
-   C04-deletedata-not-atomic; C04_crash_atomic above is the statement for the metadata alone. *)
+(* Instance deletion with the data store in the picture.  Repaired order (repo_patches/C04-5-fix.diff:
+   the repo is saved without the instance FIRST, then its key-values go): every prefix of the writes
+   shows the state before or the state after; the hypothesis says that the deleted instance's id is
+   not the id of an instance that remains (ids are unique, C12). *)
+Theorem C04_delete_data_atomic : forall C x m rid name n b r iid k,
+  aget rid (m_repos m) = Some r -> aget name (pr_data r) = Some iid ->
+  let ws := delete_data_writes_fixed m rid name n b in
+  (forall mr wr, recover C (x_meta (apply_xs x ws)) = Ok (mr, wr) ->
+     forall ib ni, In ib (m_repos mr) -> In ni (pr_data (snd ib)) -> snd ni <> iid) ->
+  xobserve C (apply_xs x (firstn k ws)) = xobserve C x \/
+  xobserve C (apply_xs x (firstn k ws)) = xobserve C (apply_xs x ws).
+Proof. exact delete_data_fixed_atomic. Qed.
+Print Assumptions C04_delete_data_atomic.
+
+(* The order as it stood (key-values first, metadata last; the deleted flag lives in memory only):
+   a crash in between showed the instance with none or part of its data. *)
 Theorem C04_delete_data_refuted :
   pinv w_mgr w_img = true /\
   let ws := delete_data_writes w_mgr 1 5 4 10 in
